@@ -15,6 +15,8 @@ an unexpected shared access is *not* a refinement); `fence _` (the `cmm_smp_mb()
 locked operations already act on memory with an empty store buffer – a fence is L2's environment label `fence t`,
 not a local step; `caa_cpu_relax()`) and `ext _` (`CDS_WFCQ_WAIT_SLEEP` = `poll(NULL,0,10)`: no shared access) ↦ none.
 -/
+set_option linter.unusedSimpArgs false
+set_option linter.unusedVariables false
 namespace UrcuVerif.Src.Queue
 open UrcuVerif.Src
 
@@ -22,7 +24,7 @@ open UrcuVerif.Src
 
 /-- "the run is ok and has these events / remaining oracle / control / private view" -/
 def IsOut (r : Except String Out) (evs : List Event) (inp' : List Val) (ctl : Ctl) (priv' : Loc → Option Val) : Prop :=
-  ∃ out, r = .ok out ∧ out.events = evs ∧ out.inp = inp' ∧ out.ctl = ctl ∧ out.env.priv = priv'
+  ∃ vars, r = .ok { events := evs, env := { vars := vars, priv := priv' }, inp := inp', ctl := ctl }
 
 namespace WfcqR
 open UrcuVerif.Wfcq WfcqL
@@ -86,19 +88,20 @@ theorem dec_inj {v w : Val} {a : Nat} (hv : dec L v = some a) (hw : dec L w = so
 
 /-! ## `___cds_wfcq_append` -/
 
-theorem append_exec (fuel : Nat) (env : Env) (hk tk : Nat) (nh nt : Val) (inp : List Val)
+theorem append_exec {fuel : Nat} {env : Env} {inp : List Val} {r : Except String Out}
+    (hE : exec fuel Gen.Src.«___cds_wfcq_append» env inp = r) (hk tk : Nat) (nh nt : Val)
     (h1 : env.vars "u_head" = some (.ptr (.obj hk))) (h2 : env.vars "tail" = some (.ptr (.obj tk)))
     (h3 : env.vars "new_head" = some nh) (h4 : env.vars "new_tail" = some nt) :
-    (inp = [] ∧ IsOut (exec fuel Gen.Src.«___cds_wfcq_append» env inp) [] [] .blocked env.priv) ∨
+    (inp = [] ∧ IsOut r [] [] .blocked env.priv) ∨
     (∃ v rest, inp = v :: rest ∧ ∀ l, v = .ptr l →
-      IsOut (exec fuel Gen.Src.«___cds_wfcq_append» env inp)
-        [.xchg (.field (.obj tk) "p") nt v 5, .st (.field l "next") nh 3] rest
+      IsOut r [.xchg (.field (.obj tk) "p") nt v 5, .st (.field l "next") nh 3] rest
         (.ret (some (boolV (v ≠ .ptr (.obj hk))))) (fun m => if m = .field l "next" then some nh else env.priv m)) := by
+  subst hE
   cases inp with
   | nil =>
     left
     simp [IsOut, Gen.Src.«___cds_wfcq_append», block, exec, eval, evalArgs, execPrim,
-      Env.setVar, asLoc, bind, Except.bind, h1, h2, h3, h4]
+      Env.setVar, asLoc, bind, Except.bind, h1, h2, h4]
   | cons v rest =>
     right
     refine ⟨v, rest, rfl, ?_⟩
@@ -122,8 +125,166 @@ theorem enqueue_refines_env (fuel : Nat) (env : Env) (hk tk nk q n : Nat) (mbv :
       execPrim, Val.truthy, hmb, bne_self_eq_false, Bool.false_eq_true, if_false, List.length_cons, List.length_nil,
       ne_eq, not_true_eq_false, bne_iff_ne, not_false_eq_true, if_true, decide_true, decide_false]
     generalize hE : exec fuel Gen.Src.«___cds_wfcq_append» _ _ = r
-    trace_state
-    sorry
+    rcases append_exec hE hk tk (.ptr (.obj nk)) (.ptr (.obj nk)) (by simp [bindParams]) (by simp [bindParams]) (by simp [bindParams])
+      (by simp [bindParams]) with ⟨rfl, vars, h⟩ | ⟨v, rest, rfl, h⟩
+    · subst h
+      simp [lrun, absEv, List.filterMap_cons]
+    · obtain ⟨k, a, rfl, hk'⟩ := hwt v (by simp)
+      obtain ⟨vars, h⟩ := h _ rfl
+      clear hE; subst h
+      have hb : decide (k = hk) = decide (a = q) := by
+        by_cases e : k = hk
+        · subst e; simp_all
+        · have : a ≠ q := fun e' => e (L.addr_inj _ _ _ hk' (e' ▸ hq))
+          simp [e, this]
+      simp [setDst, Env.setVar, absEv, decNext, decTail, dec, ht, hn, hk', lrun, lstep, hisq, hn3, boolV, hb,
+        List.filterMap_cons]
+      exact Decidable.em _
+
+/-! ## `_cds_wfcq_empty` -/
+
+/-- NULL or a pointer to an object of the layout -/
+def Typed (v : Val) : Prop := ∃ x, dec L v = some x
+
+theorem IsObj.typed {v : Val} (h : IsObj L v) : Typed L v := by
+  obtain ⟨k, a, rfl, h⟩ := h; exact ⟨a, by simp [dec, h]⟩
+
+theorem dec_eq_zero {v : Val} (h : dec L v = some 0) : v = .int 0 := dec_inj L h (by simp [dec])
+
+/-- events / rest of the oracle / control of `_cds_wfcq_empty(head = obj hk, tail = obj tk)` as a function of the oracle -/
+def emptySpec (hk tk : Nat) : List Val → List Event × List Val × Ctl
+  | [] => ([], [], .blocked)
+  | v1 :: rest =>
+    if v1 = .int 0 then
+      match rest with
+      | [] => ([.ld (.field (.obj hk) "next") v1 1], [], .blocked)
+      | v2 :: rest' =>
+        ([.ld (.field (.obj hk) "next") v1 1, .ld (.field (.obj tk) "p") v2 1], rest',
+          .ret (some (.int (if v2 = .ptr (.obj hk) then 1 else 0))))
+    else ([.ld (.field (.obj hk) "next") v1 1], rest, .ret (some (.int 0)))
+
+theorem empty_exec {fuel : Nat} {env : Env} {inp : List Val} {r : Except String Out}
+    (hE : exec fuel Gen.Src.«_cds_wfcq_empty» env inp = r) (hk tk : Nat)
+    (h1 : env.vars "u_head" = some (.ptr (.obj hk))) (h2 : env.vars "tail" = some (.ptr (.obj tk))) :
+    IsOut r (emptySpec hk tk inp).1 (emptySpec hk tk inp).2.1 (emptySpec hk tk inp).2.2 env.priv := by
+  subst hE
+  rcases inp with _ | ⟨v1, _ | ⟨v2, rest⟩⟩ <;> (try by_cases e1 : v1 = .int 0) <;> (try by_cases e2 : v2 = .ptr (.obj hk)) <;>
+    simp [IsOut, emptySpec, Gen.Src.«_cds_wfcq_empty», block, exec, eval, evalArgs, execPrim, Env.setVar, Env.setPriv,
+      setDst, asLoc, bind, Except.bind, evalBin, evalUn, Val.truthy, boolV, h1, h2, *]
+
+/-- the events of `_cds_wfcq_empty` are L2's `ld1` (+ `ld2`) of the operation `k` that runs it -/
+theorem empty_lrun (hk tk q : Nat) (k : K) (inp : List Val) (hq : L.addr hk = some q) (ht : L.tailOf tk = some q)
+    (hwt : ∀ v ∈ inp, Typed L v) :
+    ∃ p', lrun (.e1 k q) ((emptySpec hk tk inp).1.filterMap (absEv L)) = some p' ∧
+      match (emptySpec hk tk inp).2.2 with
+      | .blocked => p' = .e1 k q ∨ p' = .e2 k q
+      | .ret (some v) => (v = .int 1 ∧ p' = .done (emptyRes k)) ∨ (v = .int 0 ∧ p' = nonEmptyPc k q)
+      | _ => False := by
+  rcases inp with _ | ⟨v1, _ | ⟨v2, rest⟩⟩
+  · simp [emptySpec, lrun]
+  · by_cases e1 : v1 = .int 0
+    · simp [emptySpec, lrun, lstep, e1, absEv, decNext, decTail, dec, hq, List.filterMap_cons]
+    · obtain ⟨x, hx⟩ := hwt v1 (by simp)
+      have : x ≠ 0 := fun e => e1 (dec_eq_zero L (e ▸ hx))
+      simp [emptySpec, lrun, lstep, e1, absEv, decNext, decTail, hx, hq, List.filterMap_cons, this]
+  · by_cases e1 : v1 = .int 0
+    · obtain ⟨y, hy⟩ := hwt v2 (by simp)
+      have hdq : dec L (.ptr (.obj hk)) = some q := by simp [dec, hq]
+      by_cases e2 : v2 = .ptr (.obj hk)
+      · subst e2; cases hy.symm.trans hdq
+        simp [emptySpec, lrun, lstep, e1, absEv, decNext, decTail, dec, hq, ht, List.filterMap_cons]
+      · have : y ≠ q := fun e => e2 (dec_inj L (e ▸ hy) hdq)
+        simp [emptySpec, lrun, lstep, e1, e2, absEv, decNext, decTail, hq, ht, hy, List.filterMap_cons, this]
+        simp [dec, lrun, lstep, this]
+    · obtain ⟨x, hx⟩ := hwt v1 (by simp)
+      have : x ≠ 0 := fun e => e1 (dec_eq_zero L (e ▸ hx))
+      simp [emptySpec, lrun, lstep, e1, absEv, decNext, decTail, hx, hq, List.filterMap_cons, this]
+
+/-! ## `___cds_wfcq_busy_wait` -/
+
+theorem busy_exec {fuel : Nat} {env : Env} {inp : List Val} {r : Except String Out}
+    (hE : exec fuel Gen.Src.«___cds_wfcq_busy_wait» env inp = r) (al : Loc) (b c : Int)
+    (h1 : env.vars "attempt" = some (.ptr al)) (h2 : env.vars "blocking" = some (.int b))
+    (hp : env.priv al = some (.int c)) :
+    (b = 0 ∧ IsOut r [] inp (.ret (some (.int 1))) env.priv) ∨
+    (b ≠ 0 ∧ ∃ evs inp' ctl c', IsOut r evs inp' ctl (fun m => if m = al then some (.int c') else env.priv m) ∧
+      evs.filterMap (absEv L) = [] ∧ (∀ v ∈ inp', v ∈ inp) ∧ (ctl = .blocked ∨ ctl = .ret (some (.int 0)))) := by
+  subst hE
+  by_cases hb : b = 0
+  · left
+    simp [IsOut, Gen.Src.«___cds_wfcq_busy_wait», block, exec, eval, evalArgs, execPrim, Env.setVar, Env.setPriv,
+      setDst, asLoc, bind, Except.bind, evalBin, evalUn, Val.truthy, boolV, h1, h2, hp, hb]
+    exact ⟨env.vars, rfl⟩
+  · right
+    refine ⟨hb, ?_⟩
+    by_cases hc : c + 1 ≥ 10
+    · cases inp with
+      | nil =>
+        refine ⟨[], [], .blocked, c + 1, ?_, rfl, by simp, Or.inl rfl⟩
+        simp [IsOut, Gen.Src.«___cds_wfcq_busy_wait», block, exec, eval, evalArgs, execPrim, Env.setVar, Env.setPriv,
+          setDst, asLoc, bind, Except.bind, evalBin, evalUn, Val.truthy, boolV, h1, h2, hp, hb, hc]
+      | cons v rest =>
+        refine ⟨[.ext "CDS_WFCQ_WAIT_SLEEP" [.int 10] v], rest, .ret (some (.int 0)), 0, ?_, by simp [absEv, List.filterMap_cons],
+          by simp +contextual, Or.inr rfl⟩
+        simp [IsOut, Gen.Src.«___cds_wfcq_busy_wait», block, exec, eval, evalArgs, execPrim, Env.setVar, Env.setPriv,
+          setDst, asLoc, bind, Except.bind, evalBin, evalUn, Val.truthy, boolV, h1, h2, hp, hb, hc]
+        funext m; by_cases e : m = al <;> simp [e]
+    · refine ⟨[.fence .relax], inp, .ret (some (.int 0)), c + 1, ?_, by simp [absEv, List.filterMap_cons], by simp, Or.inr rfl⟩
+      simp [IsOut, Gen.Src.«___cds_wfcq_busy_wait», block, exec, eval, evalArgs, execPrim, Env.setVar, Env.setPriv,
+        setDst, asLoc, bind, Except.bind, evalBin, evalUn, Val.truthy, boolV, h1, h2, hp, hb, hc]
+
+/-! ## `___cds_wfcq_node_sync_next` -/
+
+/-- the body of the busy-wait loop of the generated `___cds_wfcq_node_sync_next` (extracted, not copied) -/
+def syncBody : Stmt :=
+  match Gen.Src.«___cds_wfcq_node_sync_next» with
+  | .seq _ (.seq _ (.seq (.loop b) _)) => b
+  | _ => .skip
+
+/-- result of the loop: what the caller of `sync_next` needs -/
+def SyncPost (nk : Nat) (b : Int) (env : Env) (out : Out) (evs : List Event) : Prop :=
+  (∀ v ∈ out.inp, Typed L v) ∧ (∀ m, m ≠ .glob "&attempt" → out.env.priv m = env.priv m) ∧
+  (∃ c', out.env.priv (.glob "&attempt") = some (.int c')) ∧
+  ∀ k q a, L.addr nk = some a → k.blocking = decide (b ≠ 0) →
+    ∃ p', lrun (.sync k q a) (evs.filterMap (absEv L)) = some p' ∧
+      (((out.ctl = .blocked ∨ out.ctl = .fuel) ∧ p' = .sync k q a) ∨
+       (out.ctl = .ret (some (.int (-1))) ∧ b = 0 ∧ p' = syncWbPc k q a) ∨
+       (∃ v x, out.ctl = .normal ∧ out.env.vars "next" = some v ∧ dec L v = some x ∧ x ≠ 0 ∧ p' = syncGotPc k q a x))
+
+/-- one iteration of the loop body -/
+theorem syncBody_exec (fuel nk : Nat) (b c : Int) (env : Env) (inp : List Val)
+    (h1 : env.vars "node" = some (.ptr (.obj nk))) (h2 : env.vars "blocking" = some (.int b))
+    (hp : env.priv (.glob "&attempt") = some (.int c)) :
+    ∃ o, exec fuel syncBody env inp = .ok o ∧ o.env.vars "node" = some (.ptr (.obj nk)) ∧
+      o.env.vars "blocking" = some (.int b) ∧ (∀ m, m ≠ .glob "&attempt" → o.env.priv m = env.priv m) ∧
+      (∃ c', o.env.priv (.glob "&attempt") = some (.int c')) ∧ (∀ v ∈ o.inp, v ∈ inp) ∧
+      ((inp = [] ∧ o.events = [] ∧ o.ctl = .blocked) ∨
+       (∃ v, inp.head? = some v ∧ v ≠ .int 0 ∧ o.events = [.ld (.field (.obj nk) "next") v 1] ∧ o.ctl = .brk ∧
+          o.env.vars "next" = some v) ∨
+       (∃ evs, inp.head? = some (.int 0) ∧ o.events = .ld (.field (.obj nk) "next") (.int 0) 1 :: evs ∧
+          evs.filterMap (absEv L) = [] ∧
+          ((b = 0 ∧ o.ctl = .ret (some (.int (-1)))) ∨ (b ≠ 0 ∧ (o.ctl = .blocked ∨ o.ctl = .normal))))) := by
+  cases inp with
+  | nil =>
+    refine ⟨{ events := [], env := env, inp := [], ctl := .blocked }, ?_, h1, h2, fun _ _ => rfl, ⟨c, hp⟩, by simp,
+      Or.inl ⟨rfl, rfl, rfl⟩⟩
+    simp [syncBody, Gen.Src.«___cds_wfcq_node_sync_next», block, exec, eval, evalArgs, execPrim, asLoc, bind,
+      Except.bind, h1]
+  | cons v rest =>
+    by_cases hv : v = .int 0
+    · subst hv
+      simp only [syncBody, Gen.Src.«___cds_wfcq_node_sync_next», block, exec, eval, evalArgs, execPrim, asLoc, bind,
+        Except.bind, h1, h2, Env.setVar, setDst, evalBin, boolV, Val.truthy, List.length_cons, List.length_nil]
+      simp only [String.reduceEq, if_true, if_false, decide_true, bne_iff_ne, ne_eq, Int.reduceEq, not_false_eq_true,
+        not_true_eq_false, Int.one_ne_zero, h1, h2]
+      generalize hE : exec fuel Gen.Src.«___cds_wfcq_busy_wait» _ _ = r
+      trace_state
+      sorry
+    · refine ⟨{ events := [.ld (.field (.obj nk) "next") v 1], env := (env.setVar "_t2" v).setVar "next" v, inp := rest,
+          ctl := .brk }, ?_, by simp [Env.setVar, h1], by simp [Env.setVar, h2], fun _ _ => rfl, ⟨c, hp⟩,
+          by simp +contextual, Or.inr (Or.inl ⟨v, rfl, hv, rfl, rfl, by simp [Env.setVar]⟩)⟩
+      simp [syncBody, Gen.Src.«___cds_wfcq_node_sync_next», block, exec, eval, evalArgs, execPrim, asLoc, bind,
+        Except.bind, h1, Env.setVar, setDst, evalBin, boolV, Val.truthy, hv]
 
 end WfcqR
 end UrcuVerif.Src.Queue
